@@ -89,6 +89,8 @@ fn run_suite(suite: &str, seed: u64, thorough: bool, out: &str, shards: usize) {
                             "node" => gen::gen_node(seed, &tier, shard, shards, &mut emit),
                             "wire" => gen::gen_wire(seed, &tier, shard, shards, &mut emit),
                             "fd" => gen::gen_fd(seed, &tier, shard, shards, &mut emit),
+                            "select" => gen::gen_select(seed, &tier, shard, shards, &mut emit),
+                            "listener" => gen::gen_listener(seed, &tier, shard, shards, &mut emit),
                             "cluster" => gen::gen_cluster(seed, &tier, shard, shards, &mut emit),
                             "catchup" => gen::gen_catchup(seed, &tier, shard, shards, &mut emit),
                             "mtu" => gen::gen_mtu(seed, &tier, shard, shards, &mut emit),
